@@ -18,3 +18,4 @@ import McpModel.ClientStream.AsBuilt
 -- (McpModel.ClientStream.Driver defines its own top-level `main`; it is built by the lean_exe drv_clientstream)
 import McpModel.Sessions.Props
 import McpModel.Wire.Props
+import McpModel.Gate.Props
